@@ -118,7 +118,7 @@ TICK_MOD = ["Service.operating_state", "Service.restart_countdown", "Application
 for key in (f"{SV_}::Service.apply_timestep", f"{AP_}::Application.apply_timestep", f"{SW_}::Software.apply_timestep",
             f"{SW_}::Software.scan", f"{SW_}::Software.reveal_to_red"):
     dispatch_contract(key, ensures=[], modifies=TICK_MOD)
-for nm in ("apply_timestep", "scan", "reveal_to_red"):
+for nm in ("apply_timestep", "reveal_to_red"):  # FileSystem.scan is proved in health.py (C14)
     contract(f"{FS_}::FileSystem.{nm}", verify=False, note="folder/file fan-out: file-system state only", ensures=[], modifies=TICK_MOD)
 contract(f"{B}::NetworkInterface.apply_timestep", verify=False, note="interface tick: no state", ensures=[], modifies=[])
 dispatch_contract(f"{B}::NetworkInterface.apply_timestep", ensures=[], modifies=[])
